@@ -273,9 +273,43 @@ theorem count_fast_eq_length (rows : List Tuple) : countFast rows = (filterRows 
   simp only [countFast, filterRows]
   rw [List.filter_eq_self.mpr (fun _ _ => rfl)]
 
+/-- `count(col)` through the kv count iterator = the number of rows whose `col` is not NULL, provided
+the schema's nullability flag is truthful (a NOT NULL column holds no NULL — C24's business). -/
+theorem count_agg_eq_length (nullable : Bool) (col : Tuple → Cell) (rows : List Tuple)
+    (hflag : nullable = false → ∀ r ∈ rows, (col r).isSome = true) :
+    countAgg nullable col rows = (filterRows (fun r => (col r).isSome) rows).length := by
+  simp only [countAgg, filterRows]
+  congr 1
+  apply List.filter_congr
+  intro r hr
+  cases nullable with
+  | true => cases col r <;> rfl
+  | false => simp [hflag rfl r hr]
+
+example : countAgg true headCell [[some 1], [none], [some 1]] = 2 ∧ countAgg false (fun _ => some 1) [[none], [none]] = 2 := by decide
+
 theorem count_fast_wrong_with_filter (p : Tuple → Bool) (rows : List Tuple) (t : Tuple) (ht : t ∈ rows) (hp : p t = false) :
     (filterRows p rows).length < countFast rows := by
   simp only [filterRows, countFast]
   exact List.length_filter_lt_length_iff_exists.mpr ⟨t, ht, by simp [hp]⟩
 
+end DoltVerif.C26
+
+namespace DoltVerif.C26
+open DoltVerif.Query
+/-- **not proved yet** (kept as the full statement): the inner merge join over inputs sorted on the
+join key returns a permutation of the nested-loop join on SQL key equality — duplicates on both
+sides are all paired, NULL keys (which the tuple comparison treats as equal) never match because the
+join filter rejects them.  The state machine is modelled (`mergeJoinFuel`) and compared with dolt
+and with the reference engine by the `sqlquery` harness. -/
+def merge_join_eq_nlj_full : Prop :=
+  ∀ (lk rk : Tuple → Cell) (left right : List Tuple),
+    left.Pairwise (fun a b => clt (lk b) (lk a) = false) → right.Pairwise (fun a b => clt (rk b) (rk a) = false) →
+    (mergeJoin lk rk (fun a b => keyEq (lk a) (rk b)) left right).Perm (nlj (fun a b => keyEq (lk a) (rk b)) left right)
+
+example : mergeJoin headCell headCell (fun a b => keyEq (headCell a) (headCell b))
+    [[none, some 1], [some 1, some 2], [some 2, some 3], [some 2, some 4], [some 5, some 5]]
+    [[none, some 9], [some 2, some 7], [some 2, some 8], [some 3, some 6], [some 5, some 1]] =
+    [([some 2, some 3], [some 2, some 8]), ([some 2, some 3], [some 2, some 7]), ([some 2, some 4], [some 2, some 8]),
+     ([some 2, some 4], [some 2, some 7]), ([some 5, some 5], [some 5, some 1])] := by decide +kernel
 end DoltVerif.C26
